@@ -1,7 +1,7 @@
-CONSTANT Threads = {1, 2}
+CONSTANT Threads = {1}
 CONSTANT MaxCalls = 2
 CONSTANT AsCodedReinit = FALSE
-CONSTANT AllowEdits = FALSE
+CONSTANT AllowEdits = TRUE
 CONSTANT CastInPlace = FALSE
 SPECIFICATION Spec
 INVARIANT Immutable
